@@ -325,6 +325,10 @@ pub struct World {
     pub frame_pad_start: Vec<usize>,
     pub align: usize,
 
+    /// systematic layer: a write must stop at this absolute sink offset / a read at this
+    /// absolute delivered offset (two-chunk compositions)
+    pub split_w: Option<usize>,
+    pub split_r: Option<usize>,
     pub abort: bool,
     pub prop: &'static str,
     pub forced: Option<Forced>,
@@ -382,6 +386,8 @@ impl World {
             frame_bounds: Vec::new(),
             frame_pad_start: Vec::new(),
             align: 1,
+            split_w: None,
+            split_r: None,
             abort: false,
             prop: "",
             forced: None,
@@ -648,7 +654,11 @@ impl World {
             return Ok(0);
         }
         let boundary = self.attempts.last().filter(|_| self.in_send).map(|a| a.frame_len - a.accepted);
-        let n = self.chunk(St::WChunk, self.knobs.wchunk_mode, offered, boundary);
+        let at = self.pipe.accepted_total;
+        let n = match self.split_w {
+            Some(sp) if sp > at && sp - at < offered => sp - at,
+            _ => self.chunk(St::WChunk, self.knobs.wchunk_mode, offered, boundary),
+        };
         self.pipe.buf.extend(&data[..n]);
         self.pipe.sink.extend_from_slice(&data[..n]);
         self.pipe.accepted_total += n;
@@ -783,7 +793,10 @@ impl World {
         // distance to the end of the frame the next delivered byte belongs to
         let d = self.pipe.delivered_total;
         let boundary = self.frame_bounds.iter().find(|&&(s, e)| d >= s && d < e).map(|&(_, e)| e - d);
-        let n = self.chunk(St::RChunk, self.knobs.rchunk_mode, offered, boundary);
+        let n = match self.split_r {
+            Some(sp) if sp > d && sp - d < offered => sp - d,
+            _ => self.chunk(St::RChunk, self.knobs.rchunk_mode, offered, boundary),
+        };
         for b in out.iter_mut().take(n) {
             *b = self.pipe.buf.pop_front().unwrap();
         }
